@@ -26,7 +26,7 @@ HashToScalar(msg, dst) == HashToFieldM(msg, dst, 1, NM)[1]
 \* the reduction step alone: 48 bytes -> residue
 WideReduce(bs, M) == Mod(OS2IP(bs), M)
 
-S == INSTANCE Sswu WITH FAdd <- PAdd, FSub <- PSub, FMul <- PMul, FNeg <- PNeg,
+SW == INSTANCE Sswu WITH FAdd <- PAdd, FSub <- PSub, FMul <- PMul, FNeg <- PNeg,
                         FZero <- PZero, FOne <- POne, FInv <- PInv, FIsSquare <- PIsSquare,
                         FSqrt <- PSqrt, FSgn0 <- PSgn0, SA <- IsoA, SB <- IsoB, SZ <- SswuZ,
                         Pt <- CI!Pt
@@ -56,14 +56,14 @@ IsoMapF(Q) ==
 \* ---- relational statements of the two suites.  q0, q1, r are claimed points of E'.
 IsHashToCurve(msg, dst, q0, q1, r, P) ==
   LET u == HashToFieldP(msg, dst, 2)
-  IN  /\ S!IsMapOf(u[1], q0)
-      /\ S!IsMapOf(u[2], q1)
+  IN  /\ SW!IsMapOf(u[1], q0)
+      /\ SW!IsMapOf(u[2], q1)
       /\ CI!IsSum(q0, q1, r)
       /\ IsIsoMapOf(r, P)
 
 IsEncodeToCurve(msg, dst, q0, P) ==
   LET u == HashToFieldP(msg, dst, 1)
-  IN  S!IsMapOf(u[1], q0) /\ IsIsoMapOf(q0, P)
+  IN  SW!IsMapOf(u[1], q0) /\ IsIsoMapOf(q0, P)
 
 \* ---- functional forms (slow: several field exponentiations each)
 \* Note RFC 9380 section 3: hash_to_curve adds Q0 and Q1 on the TARGET curve after iso_map; the map
@@ -72,6 +72,6 @@ IsEncodeToCurve(msg, dst, q0, P) ==
 \* comparison of the two forms a check of that equivalence as well.
 HashToCurveF(msg, dst) ==
   LET u == HashToFieldP(msg, dst, 2)
-  IN  C!AddAffine(IsoMapF(S!MapToCurve(u[1])), IsoMapF(S!MapToCurve(u[2])))
-EncodeToCurveF(msg, dst) == IsoMapF(S!MapToCurve(HashToFieldP(msg, dst, 1)[1]))
+  IN  C!AddAffine(IsoMapF(SW!MapToCurve(u[1])), IsoMapF(SW!MapToCurve(u[2])))
+EncodeToCurveF(msg, dst) == IsoMapF(SW!MapToCurve(HashToFieldP(msg, dst, 1)[1]))
 =============================================================================
